@@ -27,7 +27,9 @@ RULE = (
     "spikes exists (low / middle / highest), or factor != 1, or curated. (large) hand-made datasets "
     "with 50 001 spikes (thorough: 49 999 / 50 000 / 50 001 / 100 003) cross the 50 000-spike "
     "batching of get_depths; 1100 templates (thorough: 1025 / 1100 / 2049 / 3000) with curated "
-    "clusters; 70 channels (thorough: 64 / 65 / 130 / 384).")
+    "clusters; 70 channels (thorough: 64 / 65 / 130 / 384)."
+    ' Later additions: every accessor called again after its first result was edited in place; wa'
+    'veform units 1e-9..300; 1001/1100 templates; 70 channels.')
 ASSUMPTIONS = ['float tolerance rtol 1e-5 (1e-4 for float32 waveforms)']
 
 
